@@ -50,6 +50,8 @@ class _Ctx:
 
 class CFG:
     def __init__(self, fn):
+        if getattr(fn, "_opaque_cm", None):
+            raise AnalysisError(fn._opaque_cm)
         self.fn = fn
         self.nodes: list[Node] = []
         self.succ: dict[int, list] = {}
